@@ -850,7 +850,8 @@ Lemma step_core_effect y l ch y' evs :
     MuxView.vsteps s sid (droppy l) y1 acts y' /\ emitted acts = ev_frames evs /\ readout acts = core_reads l evs /\
     ev_pend_reads evs = [] /\
     ((arrivals acts = [] /\ (forall fr, pend = Some fr -> discarded y o fr))
-     \/ (exists fr, pend = Some fr /\ arrivals acts = [fr])).
+     \/ (exists fr, pend = Some fr /\ arrivals acts = [fr])) /\
+    (forall fr, pend = Some fr -> exists c cn q, l = LDeliver o c /\ nthN (N.to_nat c) (sy_conns y) = Some cn /\ conn_q cn o = fr :: q).
 Proof.
   intros H Hwf Hfresh Hw2.
   (* the common shape "no frame taken off for us, these actions" *)
@@ -864,12 +865,13 @@ Proof.
               MuxView.vsteps s sid (droppy l) y1 acts y' /\ emitted acts = ev_frames evs /\ readout acts = core_reads l evs /\
               ev_pend_reads evs = [] /\
               ((arrivals acts = [] /\ (forall fr, pend = Some fr -> discarded y o fr))
-               \/ (exists fr, pend = Some fr /\ arrivals acts = [fr]))).
+               \/ (exists fr, pend = Some fr /\ arrivals acts = [fr])) /\
+              (forall fr, pend = Some fr -> exists c cn q, l = LDeliver o c /\ nthN (N.to_nat c) (sy_conns y) = Some cn /\ conn_q cn o = fr :: q)).
   { intros acts evs0 r Hv He Hwire -> Hd (c0 & n0 & d0 & ->) Hr Ha.
     destruct (wire_no_reads _ Hwire) as [Hp Hrd]. specialize (Hd _ _ _ eq_refl). subst d0.
     exists y, None, acts. split; [left; auto|]. split; [exact Hv|].
     split; [rewrite ev_frames_app, He; cbn; now rewrite app_nil_r|].
-    split; [|split; [rewrite ev_pend_reads_app, Hp; reflexivity|left; split; [exact Ha|intros ? Hx; discriminate Hx]]].
+    split; [|split; [rewrite ev_pend_reads_app, Hp; reflexivity|split; [left; split; [exact Ha|intros ? Hx; discriminate Hx]|intros ? Hx; discriminate Hx]]].
     rewrite Hr. unfold core_reads. destruct l; try reflexivity.
     destruct (_ && _); [|reflexivity]. rewrite ret_data_app, Hrd. reflexivity. }
   (* uses of Hsimple: remaining goals are  vsteps / emitted / wire_only / readout / arrivals  in this order *)
@@ -903,10 +905,10 @@ Proof.
     destruct (try_read y x sid' k) as [[[y1 rc] dd]|] eqn:Et.
     + injection H as <- <-. destruct (try_read_effect _ _ _ _ _ _ _ Et) as (acts & Hv & He & Ha & Hr).
       exists y, None, acts. split; [left; auto|]. split; [exact Hv|]. split; [exact He|].
-      split; [|split; [reflexivity|left; split; [exact Ha|intros ? Hx; discriminate Hx]]].
+      split; [|split; [reflexivity|split; [left; split; [exact Ha|intros ? Hx; discriminate Hx]|intros ? Hx; discriminate Hx]]].
       rewrite Hr. unfold core_reads. destruct (_ && _); [|reflexivity]. cbn. now rewrite app_nil_r.
     + injection H as <- <-. exists y, None, [AQuiet]. split; [left; auto|].
-      split; [apply vsteps_quiet; apply quiet_set_pend|]. split; [reflexivity|]. split; [|split; [reflexivity|left; split; [reflexivity|intros ? Hx; discriminate Hx]]].
+      split; [apply vsteps_quiet; apply quiet_set_pend|]. split; [reflexivity|]. split; [|split; [reflexivity|split; [left; split; [reflexivity|intros ? Hx; discriminate Hx]|intros ? Hx; discriminate Hx]]].
       unfold core_reads. destruct (_ && _); reflexivity.
   - (* Accept *)
     rewrite step_core_accept in H.
@@ -980,6 +982,7 @@ Proof.
           split; [apply sview_set_conns|apply rview_set_conns]. }
         split; [exact Hv|]. split; [rewrite ev_frames_app, He, Hf; reflexivity|].
         split; [rewrite Hr; reflexivity|]. split; [rewrite ev_pend_reads_app, Hp; reflexivity|].
+        split; [|intros f0 Hf0; injection Hf0 as <-; exists c, cn, q; auto].
         destruct Ha as [[Ha Hx]|(_ & _ & Ha)]; [left; split; [exact Ha|]|right; exists fr; auto].
         intros f0 Hf0. injection Hf0 as <-. specialize (Hx eq_refl E2).
         unfold discarded in *. unfold y1 in Hx. rewrite !sess_set_conns in Hx. exact Hx.
@@ -990,6 +993,7 @@ Proof.
           split; left; [apply sview_set_conns|apply rview_set_conns]. }
         split; [change (emitted (AQuiet :: acts)) with (emitted acts); rewrite ev_frames_app, He, Hf; reflexivity|].
         split; [change (readout (AQuiet :: acts)) with (readout acts); rewrite Hr; reflexivity|]. split; [rewrite ev_pend_reads_app, Hp; reflexivity|].
+        split; [|intros ? Hx; discriminate Hx].
         left. change (arrivals (AQuiet :: acts)) with (arrivals acts). split; [|intros ? Hx; discriminate Hx].
         destruct Ha as [[Ha _]|(Hx & Hk & _)]; [exact Ha|].
         subst x. rewrite side_eqb_refl, Hk in Ek. discriminate.
